@@ -75,14 +75,19 @@ class RecHW(HardwareLayerBase):
 
     def init_mem(self):
         for r in self._registers.values():
-            if RegisterDirection.Write in r.direction:
+            if r.direction == RegisterDirection.Both:
+                self.mem[r.name] = 0.0                # an output that can be read back: readable power-on content
+            elif RegisterDirection.Write in r.direction:
                 self.mem[r.name] = UNKNOWN
 
+    def _read(self, r):
+        return self.inputs[r.name] if r.name in self.inputs else self.mem[r.name]
+
     def read(self, r):
-        return self.inputs[r.name]
+        return self._read(r)
 
     def read_batch(self, registers):
-        return [self.inputs[r.name] for r in registers]
+        return [self._read(r) for r in registers]
 
     def write(self, value, r):
         self.mem[r.name] = value
@@ -180,12 +185,14 @@ def make_uod(run: "Run", totalizer=True):
          .with_hardware_register("Out1", RegisterDirection.Write, safe_value=0.0)
          .with_hardware_register("Out2", RegisterDirection.Write, safe_value="Closed")
          .with_hardware_register("Free", RegisterDirection.Write)
+         .with_hardware_register("Out3", RegisterDirection.Both, safe_value=1.5)     # output that is read back
          .with_tag(ReadingTag("In1", None))
          .with_tag(ReadingTag("X", None))
          .with_tag(ReadingTag("Tot", "L"))
          .with_tag(Tag("Out1", value=0.0, unit=None, direction=TagDirection.Output))
          .with_tag(SelectTag("Out2", value="Closed", unit=None, choices=["Open", "Closed"], direction=TagDirection.Output))
          .with_tag(Tag("Free", value=0.0, unit=None, direction=TagDirection.Output))
+         .with_tag(Tag("Out3", value=0.0, unit=None, direction=TagDirection.Output))
          .with_tag(Tag("Temp", value=20.0, unit="degC"))
          .with_tag(Tag("Conc", value=10.0, unit="vol%"))         # percentage family: are_comparable is not symmetric there
          .with_tag(Tag("Pct", value=10.0, unit="%"))
@@ -445,7 +452,7 @@ class Run:
         ob["inc"] = inc
         if "tags" in self.observe:
             ob["tags"] = {k: self.tag(k) for k in SYS_TAGS}
-            ob["out"] = {k: self.tag(k) for k in ("Out1", "Out2", "Free")}
+            ob["out"] = {k: self.tag(k) for k in ("Out1", "Out2", "Free", "Out3")}
         ob["nmarks"] = len(self.marks())
         ob["ncmd"] = len(self.cmd_events)
         ob["cmd"] = self.cmd_events[self._ev0:]
